@@ -1,8 +1,8 @@
 //! Terminal rendering logic
 use crate::{
-    Face, Glyph, Image, ImageHandler, KittyImageHandler, Position, Size, Surface, SurfaceMut,
+    Face, FaceAttrs, Glyph, Image, ImageHandler, KittyImageHandler, Position, Size, Surface, SurfaceMut,
     SurfaceMutView, SurfaceOwned, SurfaceView, Terminal, TerminalCaps, TerminalCommand,
-    TerminalEvent, TerminalSize, TerminalWaker,
+    TerminalEvent, TerminalSize, TerminalWaker, UnderlineStyle,
     decoder::{Decoder, TTYCommandDecoder, Utf8Decoder},
     encoder::{Encoder, TTYEncoder},
     error::Error,
@@ -232,8 +232,11 @@ pub struct TerminalRenderer {
     /// Back surface (old)
     back: SurfaceOwned<Cell>,
 
-    /// Marked cell that are treaded specially during diffing
+    /// Marked cell that are treaded specially during diffing (frame function local)
     marks: SurfaceOwned<CellMark>,
+    /// Next frame needs to repaint everything, it is set by `clear` and
+    /// while the frame is being generated
+    force_repaint: bool,
     /// Images to be rendered (frame function local, kept here to avoid allocation)
     images: Vec<(Position, Face, Image)>,
 
@@ -247,16 +250,12 @@ impl TerminalRenderer {
     /// Create new terminal renderer
     pub fn new<T: Terminal + ?Sized>(term: &mut T, clear: bool) -> Result<Self, Error> {
         let size = term.size()?;
-        let mark = if clear {
-            CellMark::Damaged
-        } else {
-            CellMark::Empty
-        };
         Ok(Self {
             size,
             front: SurfaceOwned::new(size.cells),
             back: SurfaceOwned::new(size.cells),
-            marks: SurfaceOwned::new_with(size.cells, |_| mark),
+            marks: SurfaceOwned::new(size.cells),
+            force_repaint: clear,
             images: Vec::new(),
             glyph_cache: HashMap::new(),
             frame_count: 0,
@@ -264,6 +263,10 @@ impl TerminalRenderer {
     }
 
     /// Clear terminal
+    ///
+    /// Forgets what is shown on the terminal, so the next frame repaints
+    /// everything. The surface for the next frame is reset too, so it must
+    /// be called before the frame is drawn.
     pub fn clear<T: Terminal + ?Sized>(&mut self, term: &mut T) -> Result<(), Error> {
         // erase all images
         for (pos, cell) in self.back.iter().with_position() {
@@ -272,7 +275,7 @@ impl TerminalRenderer {
             }
         }
 
-        self.marks.fill(CellMark::Damaged);
+        self.force_repaint = true;
         self.front.fill(Cell::default());
         self.back.fill(Cell::default());
 
@@ -290,6 +293,14 @@ impl TerminalRenderer {
     pub fn frame<T: Terminal + ?Sized>(&mut self, term: &mut T) -> Result<(), Error> {
         // clear hoisted locals
         self.images.clear();
+        // every cell is damaged if repaint is forced, it stays forced until
+        // this frame is generated completely
+        self.marks.fill(if self.force_repaint {
+            CellMark::Damaged
+        } else {
+            CellMark::Empty
+        });
+        self.force_repaint = true;
 
         // First pass
         //
@@ -297,6 +308,8 @@ impl TerminalRenderer {
         // - Erase changed images
         // - Record images that we need to render
         let pixels_per_cell = self.size.pixels_per_cell();
+        // cell that has just been covered by a repainted wide character
+        let mut recovered: Option<Position> = None;
         for ((pos, old), new) in self.back.iter().with_position().zip(self.front.iter_mut()) {
             // replace glyphs with images
             if let CellKind::Glyph(glyph) = &new.kind {
@@ -311,13 +324,31 @@ impl TerminalRenderer {
                 new.kind = CellKind::Image(image);
             }
 
+            // A character that is itself covered (it is behind a wide character
+            // or under an image) is not shown and does not own the columns behind
+            // it. They need to be repainted only when the character covering it
+            // has just been repainted, as it might have been shown before.
+            let mark = self.marks.get(pos).copied().unwrap_or_default();
+            let hidden = mark == CellMark::Ignored && matches!(new.kind, CellKind::Char(_));
+            let covered_anew = recovered.take() == Some(pos);
+            let mark_new = |marks: &mut SurfaceOwned<CellMark>, new: &Cell| {
+                let (rows, cols) = cell_extent(new, pos, pixels_per_cell);
+                if !hidden {
+                    marks.view_mut(rows, cols).fill(CellMark::Ignored);
+                } else if covered_anew {
+                    marks.view_mut(rows, cols).fill_with(|_, mark| match mark {
+                        CellMark::Ignored => CellMark::Ignored,
+                        _ => CellMark::Damaged,
+                    });
+                }
+            };
+
             // skip cells that have not changed, go over ignored items too as they
             // might remove old images.
-            if old == new && self.marks.get(pos) != Some(&CellMark::Damaged) {
+            if old == new && mark != CellMark::Damaged {
                 // cells under the image and behind the wide character need to
                 // be marked as ignored
-                let (rows, cols) = cell_extent(new, pos, pixels_per_cell);
-                self.marks.view_mut(rows, cols).fill(CellMark::Ignored);
+                mark_new(&mut self.marks, new);
                 continue;
             }
 
@@ -332,8 +363,12 @@ impl TerminalRenderer {
             if let CellKind::Image(image) = &new.kind {
                 self.images.push((pos, new.face, image.clone()));
             }
-            let (rows, cols) = cell_extent(new, pos, pixels_per_cell);
-            self.marks.view_mut(rows, cols).fill(CellMark::Ignored);
+            mark_new(&mut self.marks, new);
+            if let (false, CellKind::Char(character)) = (hidden, &new.kind) {
+                if character.width().unwrap_or(0) > 1 {
+                    recovered = Some(Position::new(pos.row, pos.col + 1));
+                }
+            }
         }
 
         // Second pass
@@ -393,8 +428,14 @@ impl TerminalRenderer {
                         }
                     }
                     pos.col += repeats;
-                    // erase if it is more efficient
-                    if repeats > 4 {
+                    // erase if it is more efficient, erased cells only get
+                    // the background color so it cannot replace spaces of the
+                    // face with attributes that are visible on empty cells
+                    let attrs = new.face.attrs;
+                    let erasable = attrs.underline() == UnderlineStyle::None
+                        && !attrs.contains(FaceAttrs::REVERSE)
+                        && !attrs.contains(FaceAttrs::STRIKE);
+                    if repeats > 4 && erasable {
                         // NOTE: erase is not moving cursor
                         term.execute(TerminalCommand::EraseChars(repeats))?;
                     } else {
@@ -430,13 +471,10 @@ impl TerminalRenderer {
         }
 
         // Flip and clear buffers
-        //
-        // Marks are reset only here, as marks set by `clear` and `new` must
-        // be visible to this frame to force full repaint.
         self.frame_count += 1;
         std::mem::swap(&mut self.front, &mut self.back);
         self.front.clear();
-        self.marks.fill(CellMark::Empty);
+        self.force_repaint = false;
 
         Ok(())
     }
@@ -646,9 +684,9 @@ where
     fn write(&mut self, buf: &[u8]) -> std::io::Result<usize> {
         let mut cur = std::io::Cursor::new(buf);
         while let Some(ch) = self.decoder.decode(&mut cur)? {
-            if !self.parent.put_char(ch) {
-                return Ok(buf.len());
-            }
+            // keep decoding even if parent is out of space, otherwise state of the
+            // decoder would depend on how data is split between writes
+            self.parent.put_char(ch);
         }
         Ok(cur.position() as usize)
     }
@@ -925,9 +963,9 @@ impl std::io::Write for TerminalWriter<'_> {
     fn write(&mut self, buf: &[u8]) -> std::io::Result<usize> {
         let mut cur = std::io::Cursor::new(buf);
         while let Some(ch) = self.decoder.decode(&mut cur)? {
-            if !self.put_char(ch) {
-                return Ok(buf.len());
-            }
+            // keep decoding even if writer is out of space, otherwise state of the
+            // decoder would depend on how data is split between writes
+            self.put_char(ch);
         }
         Ok(cur.position() as usize)
     }
